@@ -186,6 +186,7 @@ def check(ctx, report):
     clock_defaults(ctx, report)
     flag_keyed_optionals(ctx, report)
     truth_valued_fields(ctx, report)
+    number_presence_by_truth_value(ctx, report)
     if 'SslRecord' in reviewed and reviewed['SslRecord'].get('strip_header'):
         # the header left out of the element-wise comparison above
         from .c06 import ssl2_header
@@ -621,9 +622,30 @@ def flag_keyed_optionals(ctx, report, RULE='C01.R12', only=None):
                 else:
                     out.append((None, e))
             return out
+        def flags_keyed(els, out):
+            for e in els:
+                if e.kind == 'alt':
+                    sg = flag_sig(e.val) if e.val is not None else None
+                    if sg is not None:
+                        out.append((sg[0], e))
+                    flags_keyed(e.a or [], out)
+                    flags_keyed(e.b or [], out)
+            return out
+        raw_p, raw_c = pe, ce
         pe, ce = optional_parts(pe), optional_parts(ce)
         if len(pe) != len(ce):
-            continue        # a different element sequence is C01.R1's finding
+            # the two sides group their elements differently (a reviewed shape difference): compared by the flags that key a part at
+            # all - a flag one side branches on and the other does not
+            fp, fc = flags_keyed(raw_p, []), flags_keyed(raw_c, [])
+            if fp or fc:
+                report.count(RULE)
+            for mine, other, who, whom in ((fp, fc, 'parser', 'composer'), (fc, fp, 'composer', 'parser')):
+                for flag, e in mine:
+                    if flag not in {x for x, _ in other}:
+                        report.add(RULE, '%s@optional[%s]' % (c.construct, flag.split('.')[-1]),
+                                   'the %s chooses the layout `%s` by the flag %s, the %s by something else (%s): an object (or a message) on which the two '
+                                   'conditions differ does not survive the round trip' % (who, e.sig()[:60], flag, whom, '; '.join(sorted({show(x.val)[:50] for _, x in other} | {show(x.val)[:50] for x in (raw_c if who == 'parser' else raw_p) if x.kind == 'alt' and x.val is not None})) or 'nothing'))
+            continue
         for i, ((ca, a), (cb, b)) in enumerate(zip(pe, ce)):
             if ca is None or cb is None:
                 continue
@@ -638,7 +660,7 @@ def flag_keyed_optionals(ctx, report, RULE='C01.R12', only=None):
             report.add(RULE, '%s@optional[%s]' % (c.construct, name),
                        'the parser reads %s when `%s`, the composer writes it when `%s`: an object (or a message) on which the two conditions differ '
                        'does not survive the round trip' % (name, show(ca)[:90], show(cb)[:90]))
-    report.floor(RULE, 2, 'flag keyed optional parts')
+    report.floor(RULE, 2 if only is None else 1, 'flag keyed optional parts')
 
 
 # ---- R13: truth values ------------------------------------------------------------------------------------------------------
@@ -682,3 +704,48 @@ def truth_valued_fields(ctx, report, RULE='C01.R13'):
                            '%s.%s is read from the wire as a truth value but admits %s: an object built with 2 is composed as 01 and read back as True (not equal), and '
                            'an object built with 0 is reported as 0 where its round trip is reported as false' % (k.name, fld.name, fval or 'anything'))
     report.floor(RULE, 1, 'truth valued wire fields')
+
+
+# ---- R14: presence of a number --------------------------------------------------------------------------------------------------
+
+def number_presence_by_truth_value(ctx, report, RULE='C01.R14'):
+    """``if self.remote_session_id:`` asks two questions at once when the field holds a number: is there a value, and is it non-zero.
+    A composer that decides by the truth value whether to write a numeric field (or what follows it) drops the legal value 0 - the
+    parser, which reads whatever is on the wire, gives back another message.  Composer side functions may test numbers for
+    presence with ``is None`` / ``is not None`` only."""
+    model = ctx.model
+    report.rule(RULE, 'composers test the presence of a numeric field with `is None`, never by its truth value (0 is a value)')
+    n_fields = 0
+    for c in model.all_classes:
+        if not hasattr(c, 'attrs_fields') or not c.has_attrs():
+            continue
+        numeric = {}
+        for fld in c.attrs_fields():
+            val = ast.unparse(fld.validator_node) if fld.validator_node is not None else ''
+            if 'deep_iterable' in val:
+                continue        # a sequence of numbers: empty means empty
+            if 'integer_types' in val or 'instance_of(int)' in val or 'instance_of(float)' in val or 'instance_of((int' in val:
+                numeric[fld.name] = fld
+        if not numeric:
+            continue
+        n_fields += len(numeric)
+        for name, f in c.methods.items():
+            if not (name == 'compose' or name.startswith('_compose') or name.startswith('compose_')):
+                continue
+            report.count(RULE)
+            tests = []
+            for n in ast.walk(f.node):
+                if isinstance(n, (ast.If, ast.IfExp, ast.While)):
+                    tests.append(n.test)
+                elif isinstance(n, ast.BoolOp):
+                    tests.extend(n.values[:-1] if isinstance(n.op, ast.And) else n.values)
+            for t in tests:
+                parts = t.values if isinstance(t, ast.BoolOp) else [t]
+                for p in parts:
+                    while isinstance(p, ast.UnaryOp) and isinstance(p.op, ast.Not):
+                        p = p.operand
+                    if isinstance(p, ast.Attribute) and isinstance(p.value, ast.Name) and p.value.id == 'self' and p.attr in numeric:
+                        report.add(RULE, '%s@truth-value[%s]' % (f.construct, p.attr),
+                                   '%s decides by the truth value of self.%s, a numeric field (%s): the value 0 is treated as "absent", so a message holding it is '
+                                   'composed as another message than the parser reads back' % (f.qualname, p.attr, ast.unparse(numeric[p.attr].validator_node)[:70]))
+    report.floor(RULE, 15, 'composer functions of classes with numeric fields')
